@@ -54,6 +54,12 @@ func hostileCorpus(r *drv.Run, phase string, nValid, nFiles, mutPer int, maxFile
 		base = append(base, f)
 	}
 	base = append(base, c07corpus(r, nValid)...)
+	// hand-assembled dynamic-Huffman streams, valid and deliberately invalid
+	for i := 0; i < nValid/2; i++ {
+		if it := corpus.DynDeflateItem(vk.CaseRNG(r.Seed, 0, phase+"-dyn", int64(i)), i%4); it != nil {
+			base = append(base, it)
+		}
+	}
 	var items []*corpus.Item
 	for i, b := range base {
 		items = append(items, b)
